@@ -14,8 +14,8 @@ HERE = os.path.dirname(os.path.abspath(__file__))
 REPO = os.environ.get("VERIF_REPO", "/repo")
 TARGET = os.environ.get("VERIF_TARGET", os.path.join(HERE, "target"))
 HARNESS = os.path.join(HERE, "harness")
-EVID = os.path.join(HERE, "evidence")
-REPLAYS = os.path.join(HERE, "replays")
+EVID = os.environ.get("VERIF_EVID", os.path.join(HERE, "evidence"))
+REPLAYS = os.environ.get("VERIF_REPLAYS", os.path.join(HERE, "replays"))
 SCRATCH = os.path.join(TARGET, "scratch")
 NCPU = int(os.environ.get("VERIF_JOBS", str(os.cpu_count() or 8)))
 ENV = dict(os.environ, CARGO_NET_OFFLINE="true", RUST_BACKTRACE="0")
